@@ -99,6 +99,10 @@ func runConcurrent(c Case) interface{} {
 		if f[0] == "mount" {
 			return layers.Mount(layer)
 		}
+		if f[0] == "chroot" {
+			// the configured chroot program is /bin/true: what is observed is the implicit mount
+			return layers.Chroot(layer)
+		}
 		return layers.Unmount(layer, false)
 	}
 	if b, _ := c["premounted"].(bool); b {
@@ -245,8 +249,11 @@ func init() {
 			}
 			cmd := func() string {
 				l := names[g.Intn(depth)]
-				if g.Chance(70, 100) {
+				switch x := g.Intn(100); {
+				case x < 50:
 					return "mount " + l
+				case x < 75:
+					return "chroot " + l
 				}
 				return "umount " + l
 			}
@@ -272,6 +279,20 @@ func init() {
 				}
 			}
 			emit(Case{"op": "conc.run", "layers": layers, "cmd0": cmd(), "cmd1": cmd(), "pre": hxs(pre), "then": hxs(then), "sched": sched})
+		}
+		// chroot reads the table while the other process's mount of the same derived layer is
+		// half done (overlay there, imports not yet), every cut point
+		for cut := 1; cut <= 8; cut++ {
+			sched := []interface{}{}
+			for j := 0; j < cut; j++ {
+				sched = append(sched, true)
+			}
+			sched = append(sched, false) // process 0 (chroot) reads the table here
+			for j := 0; j < 30; j++ {
+				sched = append(sched, true)
+			}
+			emit(Case{"op": "conc.run", "layers": []interface{}{hxs([]string{"/mnt/a"}), hxs([]string{"/mnt/a", "/var/x"})},
+				"cmd0": "chroot d0", "cmd1": "mount d0", "pre": hxs(nil), "then": hxs([]string{"umount d0"}), "sched": sched})
 		}
 		// one target, both mount with stale caches, then ONE later umount must clean up
 		emit(Case{"op": "conc.run", "layers": []interface{}{hxs([]string{"/mnt/a"})}, "cmd0": "mount b0", "cmd1": "mount b0",
